@@ -169,7 +169,8 @@ ObsAspects(S, r, ev) ==
         ELSE {})
   \* the properties proper, on the specification's own states
   \cup (IF StateOk(T) THEN {} ELSE {"PROP.state"})
-  \cup (IF StepOk(S, T, ev.in) THEN {} ELSE {"PROP.step"})
+  \cup (IF ev.in.e \in {"msg", "junk", "eof", "cmd", "open", "close", "eval"}
+        THEN (IF StepOk(S, T, ev.in) THEN {} ELSE {"PROP.step"}) ELSE {})
 
 -----------------------------------------------------------------------------
 InitOf(tr) ==
